@@ -262,10 +262,25 @@ def check_at_index(m, f, rule):
         rule.ok(f.name + ':index', 'returned address = buf + (off + i) * sz', floc(m, f))
 
 
+def _descriptor_getter(m, name, depth=0):
+    """cstl_shared_ptr_get[_const], or a private wrapper that returns what such a getter returns for its own argument"""
+    if name in ('cstl_shared_ptr_get_const', 'cstl_shared_ptr_get'):
+        return True
+    g = m.pfn(name)
+    if g is None or depth > 3 or len(g.args) != 1:
+        return False
+    rets = g.returns()
+    if len(rets) != 1 or not rets[0].o:
+        return False
+    v = g.get(strip_bitcasts(g, rets[0].o[0]))
+    return v is not None and v.op == 'call' and bool(v.callee) and _descriptor_getter(m, v.callee, depth + 1) \
+        and resolve_addr(g, v.o[0]).root == '$0'
+
+
 def check_release(m, f, rule):
     pv = Prover(f)
     bad = []
-    ras = [c for c in f.all_insts() if c.op == 'call' and c.callee in ('cstl_shared_ptr_get_const', 'cstl_shared_ptr_get')]
+    ras = [c for c in f.all_insts() if c.op == 'call' and c.callee and _descriptor_getter(m, c.callee)]
     uniq = [c for c in f.calls('cstl_shared_ptr_unique')]
     out_stores = [s for s in f.all_insts() if s.op == 'store' and resolve_addr(f, s.o[1]).root == '$1']
     if not out_stores:
